@@ -68,7 +68,9 @@ JudgeMsg(e) ==
       Tag(~NewlyInvalid(e), "Inv.OnlyValidShares:" \o m.kind) \o
       (* clause 2: once the threshold is reached the recovered signatures verify under the group key *)
       Tag(st.recovered => ObsSigValid(st),
-          "Inv.ThresholdImpliesValidGroupSig:" \o (IF allValid THEN "allSharesValid" ELSE "withInvalidShare")) \o
+          "Inv.ThresholdImpliesValidGroupSig:" \o
+             (IF allValid THEN "allSharesValid"
+              ELSE "withInvalidShare/" \o CulpritStr(IF NewlyInvalid(e) THEN culprits \cup {m.kind} ELSE culprits))) \o
       (* conformance with the reference handler *)
       Tag(ref => added, "Step.refused:" \o m.kind) \o
       Tag((added /\ ~ref) => NewlyInvalid(e), "Step.added:" \o m.kind) \o
